@@ -179,9 +179,10 @@ Qed.
 (* fut_complete with a cancellation + clearing the must-cancel flag preserves MInv *)
 Lemma M_fut_cancel s f o : MInv s ->
   (f_st (futs s f) = FPend -> forall t, f_waiter (futs s f) = Some t -> k_waiter (tasks s t) = Some f) ->
+  (f_st (futs s f) = FPend -> exists x, k_waiter (tasks s x) = Some f) ->
   MInv (fut_complete s f (FCanc o)).
 Proof.
-  intros [K Ci G J] Hw. pose proof (kframe_fut_cancel none_s none_t s f o) as F. constructor.
+  intros [K Ci G J] Hw Hex. pose proof (kframe_fut_cancel none_s none_t s f o Hex) as F. constructor.
   - apply K_fut_complete; auto. discriminate.
   - eapply C_kframe; eauto. apply ksafe_none.
   - eapply G_kframe; eauto.
@@ -459,10 +460,13 @@ Proof.
   set (X := set_running (set_ctl (susp s t f) t c) None) in *.
   set (o := k_msg (tasks s t)).
   assert (M1 : MInv (upd_task (fut_complete X f (FCanc o)) t (tk_must false o))).
-  { apply M_upd_task_irrel; [apply irrel_must|]. apply M_fut_cancel; [exact M0|].
-    intros _ x Hx. unfold X, susp in *.
-    cbn [set_running set_ctl upd_task set_tasks upd_fut set_futs futs tasks] in *.
-    rewrite upd_same in Hx. cbn in Hx. injection Hx as <-. rewrite upd_same. cbn. rewrite upd_same. reflexivity. }
+  { apply M_upd_task_irrel; [apply irrel_must|]. apply M_fut_cancel; [exact M0| |].
+    - intros _ x Hx. unfold X, susp in *.
+      cbn [set_running set_ctl upd_task set_tasks upd_fut set_futs futs tasks] in *.
+      rewrite upd_same in Hx. cbn in Hx. injection Hx as <-. rewrite upd_same. cbn. rewrite upd_same. reflexivity.
+    - intros _. exists t. unfold X, susp.
+      cbn [set_running set_ctl upd_task set_tasks upd_fut set_futs futs tasks]. rewrite upd_same. cbn.
+      rewrite upd_same. reflexivity. }
   revert M1. apply M_seq. unfold X. rewrite fc_set_running. unfold set_ctl. rewrite fc_upd_task.
   constructor; try reflexivity.
   intros x. cbn [set_running set_ctl upd_task set_tasks tasks]. unfold upd.
